@@ -398,7 +398,7 @@ func (p *parser) parseExpr(minPrec int) (Expr, error) {
 }
 
 func (p *parser) parseUnary() (Expr, error) {
-	if p.isOp("!") || p.isOp("-") || p.isOp("*") {
+	if p.isOp("!") || p.isOp("-") || p.isOp("*") || p.isOp("&") {
 		op := p.adv().s
 		x, err := p.parseUnary()
 		if err != nil {
